@@ -70,6 +70,14 @@ def _ops(kind, seps):
         st.tuples(st.just('readlines')),
         st.tuples(st.just('next')),
         st.tuples(st.just('iterate')),
+        # an iteration that is left before the end (break out of a for loop / an iterator stepped by hand and dropped): the next
+        # operation continues right after the last line taken, without any seek in between
+        st.tuples(st.just('iter_partial'), st.integers(1, 3), st.sampled_from(['for_break', 'by_hand'])),
+        st.tuples(st.just('iter_partial'), st.integers(1, 2), st.sampled_from(['for_break', 'by_hand'])),
+        # one write repeated (tens to hundreds of characters in the file), and many absolute seeks to distinct targets in a
+        # non-monotonic order on the same object, then a read
+        st.tuples(st.just('write'), chunk, st.sampled_from(['len', 'end']), st.sampled_from([8, 20, 40])),
+        st.tuples(st.just('seek_many'), st.sampled_from([3, 5, 7, 11, 13]), st.sampled_from([12, 40, 70])),
         st.tuples(st.just('seek'), frac),
         st.tuples(st.just('seek'), frac),
         st.tuples(st.just('seek'), frac),
@@ -207,6 +215,40 @@ def run_spool(case):
                 do = lambda f: [l for l in f]   # noqa
                 line_op = True
                 read_after = read_after or moved
+            elif name == 'iter_partial':
+                def do(f, k=op[1], how=op[2]):
+                    taken = []
+                    if how == 'for_break':
+                        for l in f:
+                            taken.append(l)
+                            if len(taken) >= k:
+                                break
+                    else:
+                        it = iter(f)
+                        for _ in range(k):
+                            l = next(it, None)
+                            if l is None:
+                                break
+                            taken.append(l)
+                    return taken
+                line_op = True
+                read_after = read_after or moved
+            elif name == 'seek_many':
+                targets = []
+                for i in range(1, op[2] + 1):
+                    t = (i * op[1]) % (len(model) + 1)
+                    if t not in targets:
+                        targets.append(t)
+
+                def do(f, targets=targets):
+                    seen = []
+                    for t in targets:
+                        f.seek(t)
+                        seen.append(f.tell())
+                    return seen, f.read(4)
+                moved = True
+                if len(targets) > 32:
+                    out.label('more_than_32_distinct_seek_targets')
             elif name == 'seek':
                 p = (len(model) * op[1]) // 16
                 do = lambda f, p=p: f.seek(p)   # noqa
@@ -267,6 +309,15 @@ def run_spool(case):
                     rem = model[pos:]
                     if name in ('readline', 'next'):
                         codecs_like = got[0] == 'ok' and got[1] == _codecs_readline(rem)
+                    elif name == 'iter_partial':
+                        want, r_ = [], rem
+                        for _ in range(op[1]):
+                            l_ = _codecs_readline(r_)
+                            if not l_:
+                                break
+                            want.append(l_)
+                            r_ = r_[len(l_):]
+                        codecs_like = got[0] == 'ok' and got[1] == want
                     elif name == 'readlines':
                         codecs_like = got[0] == 'ok' and got[1] == _codecs_readlines(rem)
                     else:
